@@ -5,7 +5,7 @@ Import ListNotations.
 From DI Require Import Syntax Subs Superset.
 
 Definition bound_term (s : subs) (p : string) (dflt : term) : term :=
-  match lookup s p with Some (VTerm v) => v | _ => dflt end.
+  match lookup s p with Some (VType v) => v | Some (VExpr v) => v | _ => dflt end.
 
 (* forward substitution: replace every parameter occurrence by its binding. A type
    parameter in generic-argument position that is bound to an expression turns the
@@ -22,9 +22,7 @@ Definition apply_node (s : subs) (l : label) (ks ks' : list term) : term :=
       match ks with
       | [c] => match ty_param c with
                | Some p => match lookup s p with
-                           | Some (VTerm v) =>
-                               if is_expr_kind (tlabel v) then Node (K "GConst" "") [v]
-                               else Node l ks'
+                           | Some (VExpr v) => Node (K "GConst" "") [v]
                            | _ => Node l ks'
                            end
                | None => Node l ks'
@@ -70,43 +68,47 @@ Fixpoint params (t : term) {struct t} : list string :=
    with every lifetime; `extern fn` = `extern "C" fn`; a method call's turbofish may be
    omitted on either side; operands of a commutative binary operator may be swapped
    (the residue F5c, see known_findings.json). *)
-Definition all2_with (f : term -> term -> bool) : list term -> list term -> bool :=
-  fix go (xs ys : list term) {struct xs} : bool :=
-    match xs, ys with
-    | [], [] => true
-    | x :: xs', y :: ys' => f x y && go xs' ys'
-    | _, _ => false
-    end.
+Definition is_nil (ks : list term) : bool := match ks with [] => true | _ => false end.
 
-Definition is_wrap (l : label) : bool := is_ty_wrap l || is_ex_group l.
+(* label-level identifications: '_ against any lifetime; ABI names `extern` = `extern "C"` *)
+Definition equiv_special (la : label) (ka : list term) (lb : label) (kb : list term) : bool :=
+  (is_kind "Lifetime" la && is_kind "Lifetime" lb && lifetime_ok la lb && is_nil ka && is_nil kb)
+  || (is_kind "Abi" la && is_kind "Abi" lb && abi_names_ok (Node la ka) (Node lb kb)).
 
 Definition equiv_step (rec : term -> term -> bool) (self : term -> bool)
            (la : label) (ka : list term) (lb : label) (kb : list term) : bool :=
+  let rest :=
+    if equiv_special la ka lb kb then true
+    else if label_eqb la lb then
+      if is_kind "EBinary" la && commutative_op (ld la) then
+        match ka, kb with
+        | [l1; r1], [l2; r2] =>
+            (rec l1 l2 && rec r1 r2) || (rec l1 r2 && rec r1 l2)
+        | _, _ => all2_with rec ka kb
+        end
+      else if is_kind "EMethodCall" la then
+        match ka, kb with
+        | rc1 :: tf1 :: args1, rc2 :: tf2 :: args2 =>
+            rec rc1 rc2 &&
+            (is_kind "ONone" (tlabel tf1) || is_kind "ONone" (tlabel tf2) || rec tf1 tf2) &&
+            all2_with rec args1 args2
+        | _, _ => all2_with rec ka kb
+        end
+      else all2_with rec ka kb
+    else false in
+  let right :=
+    if is_wrap lb then
+      match kb with
+      | [e] => self e
+      | _ => rest
+      end
+    else rest in
   if is_wrap la then
-    match ka with [e] => rec e (Node lb kb) | _ => false end
-  else if is_wrap lb then
-    match kb with [e] => self e | _ => false end
-  else if is_kind "Lifetime" la then
-    is_kind "Lifetime" lb && lifetime_ok la lb
-  else if is_kind "Abi" la then
-    is_kind "Abi" lb && abi_names_ok (Node la ka) (Node lb kb)
-  else if label_eqb la lb then
-    if is_kind "EBinary" la && commutative_op (ld la) then
-      match ka, kb with
-      | [l1; r1], [l2; r2] =>
-          (rec l1 l2 && rec r1 r2) || (rec l1 r2 && rec r1 l2)
-      | _, _ => all2_with rec ka kb
-      end
-    else if is_kind "EMethodCall" la then
-      match ka, kb with
-      | rc1 :: tf1 :: args1, rc2 :: tf2 :: args2 =>
-          rec rc1 rc2 &&
-          (is_kind "ONone" (tlabel tf1) || is_kind "ONone" (tlabel tf2) || rec tf1 tf2) &&
-          all2_with rec args1 args2
-      | _, _ => all2_with rec ka kb
-      end
-    else all2_with rec ka kb
-  else false.
+    match ka with
+    | [e] => rec e (Node lb kb)
+    | _ => right
+    end
+  else right.
 
 Fixpoint equivb (a : term) {struct a} : term -> bool :=
   match a with
